@@ -148,6 +148,19 @@ def run_property(ctx: core.Ctx, prop: str, prefixes: tuple, rich: bool) -> int:
     mc_viol = [{"clause": f"model:{v}", "kf": "", "detail": mc["out"][-2500:]} for v in mc["violated"]]
     gens = ctx.gen_json("AnnotateMC", ctx.cfg_with("Gen_Annotate.cfg", "one", MaxSteps=1))
     cases = sweep_cases(ctx, rnd, gens, 2 if q else 4, rich=rich)
+    if prop == "C10":
+        # one invocation over several files with different headers, repeated in fresh interpreters under different string
+        # hash seeds (the visiting order of the files follows the seed)
+        by_name = {g["hist"][0]["b"]["name"]: g["hist"][0]["b"] for g in gens if len(g["hist"]) == 1}
+        trio = [("a.py", "python", "ownheaderA"), ("b.py", "python", "ownheaderB"), ("c.c", "c", "ownheaderC"), ("d.py", "python", "code")]
+        names = [t[0] for t in trio]
+        for bn in ("B1", "B2"):
+            for seeds in ((0, 1, 2), (3, 6, 9), (5, 4, 7)) if q else [(a, a + 1, a + 2) for a in range(0, 30, 3)]:
+                pick = f"{ctx.seed}|hs|{len(cases)}"
+                steps = [dict(anncases.step_of(by_name[bn], rnd, names, {}, must=True, pick_seed=pick), hashseed=hs) for hs in seeds]
+                cases.append({"tid": len(cases) + 1, "steps": steps,
+                              "files": [{"name": n, "kind": k, "style_name": s_, "eol": "\n"} for n, s_, k in trio],
+                              "label": anncases.label(files=names, bundle=bn, entry="multi-file-hash-seeds", seeds=list(seeds))})
     evl = ctx.pmap(annhist.run_history, cases, chunksize=8)
     events, dropped = [], 0
     for es in evl:
